@@ -843,8 +843,10 @@ def o_l2d(R, rng, g):
                 vols = [gram_vol_sq([P[j] + V[j] for j in s] + [P[c] + V[c]]) for c in nbr]
                 want.append(sum(math.sqrt(float(v)) for v in vols) / len(nbr))
             if good and all(w > 1e-3 for w in want):
+                # (volumes through the Cayley-Menger determinant: the rounding error is absolute on the scale of the point set, so a
+                # simplex that is thin compared with its neighbours is judged on the scale of the largest volume)
                 R.check("learner2D.triangle_loss", "l2d_triangle_loss",
-                        all(abs(float(a) - w) <= 1e-8 * w for a, w in zip(got, want)),
+                        all(abs(float(a) - w) <= 1e-8 * w + 1e-10 * max(want) for a, w in zip(got, want)),
                         f"learner2D.triangle_loss = {list(map(float, got))}, exact {want}")
 
 
